@@ -5,6 +5,7 @@ import (
 	"go/token"
 	"go/types"
 	"math/big"
+	"strings"
 
 	"golang.org/x/tools/go/ssa"
 
@@ -182,9 +183,43 @@ func (x *Exec) step(s *State, in ssa.Instruction, prev *ssa.BasicBlock) bool {
 		s.heap[v] = smt.Store(x.Heap(s, v), m, smt.Store(smt.Select(x.Heap(s, v), m), k, val))
 		x.wrote[d], x.wrote[v] = true, true
 	case *ssa.Range:
-		x.unsupported("range over map/string")
+		mt, ok := in.X.Type().Underlying().(*types.Map)
+		if !ok {
+			x.unsupported("range over string")
+			return true
+		}
+		name := x.iterHeap(in, mt)
+		x.Heap(s, name)
+		s.heap[name] = smt.ConstArr(x.E.HeapSorts[name], smt.False)
+		s.env[in] = IterVal{X: TermVal{x.term(s, in.X)}, Key: name}
 	case *ssa.Next:
-		x.unsupported("range over map/string")
+		if in.IsString {
+			x.unsupported("range over string")
+			return true
+		}
+		it, ok := x.val(s, in.Iter).(IterVal)
+		if !ok {
+			x.unsupported("next on unknown iterator")
+			return true
+		}
+		rg := in.Iter.(*ssa.Range)
+		mt := rg.X.Type().Underlying().(*types.Map)
+		m := it.X.(TermVal).T
+		d, v, _, _ := x.E.mapHeaps(rg.X.Type())
+		dom := smt.Select(x.Heap(s, d), m)
+		vals := smt.Select(x.Heap(s, v), m)
+		visited := x.Heap(s, it.Key)
+		okT := smt.Fresh("next$ok", smt.Bool)
+		k := x.freshOf(s, mt.Key(), "next$k")
+		val := x.freshOf(s, mt.Elem(), "next$v")
+		s.assume(smt.Implies(okT, smt.And(smt.Neq(m, RefNil), smt.Select(dom, k), smt.Not(smt.Select(visited, k)), smt.Eq(val, smt.Select(vals, k)))))
+		q := smt.Var(smt.FreshName("q$k"), x.E.SortOf(mt.Key()))
+		s.assume(smt.Implies(smt.Not(okT), smt.Or(smt.Eq(m, RefNil), smt.Forall([]*smt.Term{q}, smt.Implies(smt.Select(dom, q), smt.Select(visited, q)), []*smt.Term{smt.Select(dom, q)}))))
+		s.heap[it.Key] = smt.Ite(okT, smt.Store(visited, k, smt.True), visited)
+		if tv, isRef := Val(TermVal{val}).(TermVal); isRef && val.Sort == smt.Ref {
+			x.assumeAllocated(s, tv.T)
+		}
+		s.env[in] = TupleVal{[]Val{TermVal{okT}, TermVal{k}, TermVal{val}}}
 	case *ssa.Select:
 		x.E.Note("select statement in %s: outcome is an unconstrained choice", x.fn.String())
 		var elems []Val
@@ -212,6 +247,25 @@ func (x *Exec) step(s *State, in ssa.Instruction, prev *ssa.BasicBlock) bool {
 		x.unsupported("instruction %T", in)
 	}
 	return true
+}
+
+// iterHeap names the ghost "visited keys" set of a map range statement.
+func (x *Exec) iterHeap(rg *ssa.Range, mt *types.Map) string {
+	name := "IT$" + sanitizeName(rg.Parent().String()) + "$" + rg.Name()
+	x.E.HeapSorts[name] = smt.Arr(x.E.SortOf(mt.Key()), smt.Bool)
+	return name
+}
+
+func sanitizeName(s string) string {
+	var b strings.Builder
+	for _, r := range s {
+		if r >= 'a' && r <= 'z' || r >= 'A' && r <= 'Z' || r >= '0' && r <= '9' || r == '_' || r == '.' {
+			b.WriteRune(r)
+		} else {
+			b.WriteByte('_')
+		}
+	}
+	return b.String()
 }
 
 // zeroGhost: the ghost fields of a freshly allocated (zero-valued) object start at their zero value.
